@@ -18,6 +18,10 @@ pub fn run(sh: &mut Shell, cl: &CommandLine, cmd: &Command,
         return cr;
     }
 
+    // status changes that were collected but not applied yet must not be
+    // overtaken by what happens to the job from here on
+    jobc::try_wait_bg_jobs(sh, false, false);
+
     let mut job_id = -1;
     if tokens.len() == 1 {
         if let Some((gid, _)) = sh.jobs.iter().next() {
